@@ -11,7 +11,7 @@ from vlib import hexf, close
 
 HERE = os.path.dirname(os.path.abspath(__file__))
 PRE = ("From Coq Require Import ZArith List Floats.\n"
-       "From Celer Require Import Base.Num Base.NumF Base.Vec3 C12.Solver C12.Surfaces C12.Transforms C12.Run.\n"
+       "From Celer Require Import Base.Num Base.NumF Base.Vec3 C12.Solver C12.Surfaces C12.Transforms C12.TransformSimplify C12.Run.\n"
        "Import ListNotations.\nOpen Scope float_scope.\n")
 EPS = 2.0 ** -52
 INF = float("inf")
@@ -439,15 +439,16 @@ def run(ctx):
     n_eval = int(os.environ.get("VERIF_C12_N", 0)) or (3000 if quick else 40000)
     n_tr = max(60, n_eval // 7)
     ctx.trusted += [
-        "hand-written model coq/C12/{Solver,Surfaces,Transforms}.v tied by differential testing (props/C12/run.py, harness/surfaces.cc)",
+        "hand-written model coq/C12/{Solver,Surfaces,Transforms,Simplify,TransformSimplify,Involute}.v tied by differential testing (props/C12/run.py, harness/surfaces.cc)",
         "float instance of Num (Base/NumF.v); gap R vs binary64 rounding (DESIGN.md 3.1): catastrophic cancellation is outside the R theorems and exercised by the float search only",
         "exact rational reference for the ray polynomial in props/C12/run.py (fractions.Fraction)",
     ]
     ctx.assumptions += [
         "directions are unit vectors (spheres and cylinders take a = 1 resp. 1 - w_T^2 for granted)",
         "exactness of calc_intersections is claimed outside the documented tolerance window |a| < 1e-10 (C12_solve_window_partial)",
-        "InvoluteSolver is not modelled",
         "SurfaceSimplifier: relational oracle only (snapping moves the surface by <= tol; exactness only for exact zeros)",
+        "Involute: constants::pi is the real PI in the theorems; the solver theorem assumes the IllinoisRootFinder calls converged (C12_illinois_converged); completeness of the root bracketing is not proved",
+        "TransformSimplifier: rotation matrices are orthogonal and 0 <= eps, eps^2 < 2 (a valid Tolerance has 0 < rel < 1); binary64 cannot resolve 3 - tr below ~1e-15 (NOTES.md O2)",
     ]
     proofs_ok = ctx.coq_prove("Properties_C12.v")
     ok, _ = ctx.coq_build(["C12/Run.vo"])
@@ -461,6 +462,7 @@ def run(ctx):
     found_input |= check_eval(ctx, exe, n_eval)
     found_input |= check_transforms(ctx, exe, n_tr)
     found_input |= check_sperm(ctx, exe)
+    found_input |= check_tsimp(ctx, exe, 400 if quick else 4000)
     found_input |= check_involute(ctx, exe, 200 if quick else 4000)
     found_input |= check_simplifier_chain(ctx, exe, 600 if quick else 8000)
     if not proofs_ok and not found_input:
@@ -1023,11 +1025,145 @@ def check_sperm(ctx, exe):
     return found
 
 
+def rot_about(ax, th):
+    c, s = math.cos(th), math.sin(th)
+    X, Y, Z = ax
+    return [[c + X * X * (1 - c), X * Y * (1 - c) - Z * s, X * Z * (1 - c) + Y * s],
+            [X * Y * (1 - c) + Z * s, c + Y * Y * (1 - c), Y * Z * (1 - c) - X * s],
+            [X * Z * (1 - c) - Y * s, Y * Z * (1 - c) + X * s, c + Z * Z * (1 - c)]]
+
+
+def check_tsimp(ctx, exe, n):
+    """TransformSimplifier (liborange, transform/TransformSimplifier.cc) against C12/TransformSimplify.v, aimed at
+    the two soft-identity thresholds (rotation angle ~ eps, |translation| ~ eps), + the property oracle
+    C12_simplify_transform_pointwise on the implementation's outputs."""
+    r = ctx.rng
+    ID = [[1.0, 0.0, 0.0], [0.0, 1.0, 0.0], [0.0, 0.0, 1.0]]
+    cases = []
+    for i in range(n):
+        eps = r.choice([0.5, 0.1, 1e-2, 1e-3, 1e-4, 1e-5, 1e-6, 1e-7, 1.5e-8, 1e-8, 1e-10, logu(r, -7, -1)])
+        kt = r.choice([0.0, 0.0, 0.3, 0.9, 0.999, 1.001, 1.1, 3.0, 1e3, logu(r, -2, 2)])
+        tra = [x * eps * kt for x in unit(r)]
+        if r.random() < 0.2:
+            tra = [0.0, 0.0, 0.0]; tra[r.randrange(3)] = eps * kt
+        c = r.random()
+        kind = 2
+        if c < 0.05:
+            kind, R, rk = 0, ID, "none"
+        elif c < 0.25:
+            kind, R, rk = 1, ID, "translation"
+        elif c < 0.35:
+            R, rk = ID, "identity"
+        elif c < 0.45:
+            R, rk = r.choice([rnd_rotation(r, reflect=True), signed_perm_matrix(r)]), "reflection/perm"
+        elif c < 0.5:
+            # a reflection that is the identity up to a sign: trace 1
+            R = [list(row) for row in ID]; R[r.randrange(3)] = [-x for x in R[r.randrange(3)]]
+            R = [[1.0, 0.0, 0.0], [0.0, 1.0, 0.0], [0.0, 0.0, -1.0]]; rk = "mirror"
+        else:
+            kr = r.choice([0.3, 0.9, 0.999, 1.001, 1.1, 2.0, 30.0, logu(r, -2, 3)])
+            th = min(math.pi, kr * eps)
+            R = rot_about(unit(r) if r.random() < 0.7 else [0.0, 0.0, 1.0], th)
+            rk = "angle=%.4g*eps" % kr if th < math.pi else "angle=pi"
+        pts = [rnd_pt(r, 10 ** r.uniform(-1, 3)) for _ in range(3)]
+        cases.append((kind, R, tra, eps, pts, rk))
+    lines = ["tsimp %d %s %s %s %d %s" % (k, " ".join(hx(row) for row in R), hx(tra), float(eps).hex(), len(pts),
+                                         " ".join(hx(p) for p in pts)) for k, R, tra, eps, pts, rk in cases]
+    rc, out = ctx.run_harness(exe, input="\n".join(lines) + "\n")
+    outl = out.strip().splitlines()
+    if rc != 0 or len(outl) != len(lines):
+        raise vlib.BuildError("surface harness failed on tsimp rc=%d" % rc, out[-2000:])
+    exprs = []
+    for k, R, tra, eps, pts, rk in cases:
+        v = ["VNoTransformation", "(VTranslation %s)" % v3(tra),
+             "(VTransformation (TF (M3 %s %s %s) %s))" % (v3(R[0]), v3(R[1]), v3(R[2]), v3(tra))][k]
+        exprs.append("run_tsimp %s %s [%s]" % (hexf(eps), v, "; ".join(v3(p) for p in pts)))
+    mvals = ctx.coq_eval("tsimp", PRE, exprs, chunk=100, timeout=600)
+    found = False
+    nviol = 0
+    for (k, R, tra, eps, pts, rk), line, mv in zip(cases, outl, mvals):
+        tok = line.split()
+        replay = {"cmd": "transform-simplifier", "kind": ["NoTransformation", "Translation", "Transformation"][k],
+                  "rotation": R, "translation": tra, "eps": eps, "points": pts, "impl": line, "model": mv}
+        if tok[0] != "ok":
+            ctx.violation("tie-broken", "harness error on a TransformSimplifier case", replay, no_input=True)
+            nviol += 1
+            continue
+        code = int(tok[1]); nd = int(tok[2]); data = [pf(t) for t in tok[3:3 + nd]]
+        rest = [pf(t) for t in tok[3 + nd:]]
+        ctx.case(("tsimp", k, R, tra, eps), nontrivial=code != k)
+        ctx.count("tsimp:%s->%s" % (["none", "translation", "transformation"][k], ["none", "translation", "transformation"][code]))
+        # --- property oracle (C12_simplify_transform_pointwise on the implementation's outputs)
+        bad = None
+        if code > k:
+            bad = "TransformSimplifier returned a more general variant (%d -> %d)" % (k, code)
+        rot_dropped = k == 2 and code < 2
+        tra_dropped = k >= 1 and code == 0
+        # binary64: the trace test cannot resolve 3 - tr below a few ulp(3)
+        eps_rot = math.sqrt(eps * eps + 32 * EPS)
+        for j, p in enumerate(pts):
+            o = rest[6 * j:6 * j + 3]; sm = rest[6 * j + 3:6 * j + 6]
+            dist = math.sqrt(sum((a - b) ** 2 for a, b in zip(o, sm)))
+            pn = math.sqrt(sum(x * x for x in p))
+            bound = (eps_rot * pn if rot_dropped else 0.0) + (eps if tra_dropped else 0.0)
+            if dist > bound * (1 + 1e-9) + 64 * EPS * (pn + max(abs(x) for x in tra)):
+                bad = ("simplified transform moves p = %r by %.6g, more than eps |p| [rotation dropped: %s] + eps [translation dropped: %s] = %.6g (eps = %g)"
+                       % (p, dist, rot_dropped, tra_dropped, bound, eps))
+                replay["point"] = p
+                break
+        if bad:
+            ctx.violation("oracle", bad + " (%s)" % rk, replay)
+            found = True
+            nviol += 1
+            if nviol > 5:
+                break
+            continue
+        # --- correspondence
+        mcode, mdata, mpts = mv
+        flat = [x for row in mpts for x in row]
+        if mcode != code or len(mdata) != nd or any(a != b for a, b in zip(mdata, data)) or \
+           not close(flat, rest, rtol=1e-12, atol=1e-11):
+            ctx.violation("correspondence", "TransformSimplifier: model and implementation differ (%s)" % rk, replay, no_input=True)
+            nviol += 1
+            if nviol > 5:
+                break
+    return found
+
+
+def inv_sense_margin(data, p):
+    """distance (in the quantities calc_sense compares) of the position from the nearest decision boundary of
+    Involute::calc_sense: radial bounds, a1 = a, theta = tmax + a, whole-turn lift, py = 0"""
+    ox, oy, rbs, a, tmin, tmax = data
+    x, y = p[0] - ox, p[1] - oy
+    if rbs < 0:
+        x = -x
+    rb2 = rbs * rbs
+    tsq = (x * x + y * y) / rb2 - 1
+    m = min(abs(tsq - tmin * tmin), abs(tsq - tmax * tmax))
+    if tsq < 0:
+        return m
+    n = math.hypot(x, y)
+    xp = rb2 / n
+    yp = math.sqrt(max(0.0, rb2 - xp * xp))
+    px, py = (xp * x - yp * y) / n, (yp * x + xp * y) / n
+    th = math.acos(max(-1.0, min(1.0, px / math.hypot(px, py))))
+    m = min(m, abs(py) / abs(rbs))
+    if py < 0:
+        th = 2 * math.pi - th
+    q = (tmax + a - th) / (2 * math.pi)
+    m = min(m, abs(q - round(q)) * 2 * math.pi)
+    th += max(0.0, math.floor(q)) * 2 * math.pi
+    a1 = th - math.sqrt(max(0.0, tsq))
+    return min(m, abs(a1 - a), abs(th - (tmax + a)))
+
+
 def check_involute(ctx, exe, n):
-    """Involute: relational oracle only (InvoluteSolver is not modelled): distances positive and ordered
-    sentinel-last, hit points on the involute curve within the solver's tolerance, unit normal."""
+    """Involute / InvoluteSolver / InvolutePoint / IllinoisRootFinder: (1) relational oracle on the implementation
+    (distances positive, hit points on the bounded involute arc within the solver tolerance, unit normal),
+    (2) correspondence with the model C12/Involute.v (sense, normal, intersection distances)."""
     r = ctx.rng
     cases, lines = [], []
+    NP = 2
     for i in range(n):
         rb = r.uniform(0.5, 3.0)
         right = r.random() < 0.4
@@ -1036,48 +1172,115 @@ def check_involute(ctx, exe, n):
         tmax = tmin + r.uniform(0.5, min(4.0, 2 * math.pi - 0.2))
         o = [r.uniform(-1, 1), r.uniform(-1, 1)]
         data = o + [(-rb if right else rb), (math.pi - a if right else a), tmin, tmax]
+        aa = data[3]
         R = rb * math.sqrt(1 + tmax * tmax) * 1.3
-        p = [o[0] + r.uniform(-1, 1) * R, o[1] + r.uniform(-1, 1) * R, r.uniform(-1, 1)]
+        on = 0
+        c = r.random()
+        if c < 0.6:
+            p = [o[0] + r.uniform(-1, 1) * R, o[1] + r.uniform(-1, 1) * R, r.uniform(-1, 1)]; pk = "generic"
+        elif c < 0.8:
+            # next to the curve (both sides), inside the radial bounds
+            t = r.uniform(tmin, tmax); da = r.choice([-1, 1]) * r.choice([1e-3, 1e-2, 0.1])
+            x = rb * (math.cos(t + aa + da) + t * math.sin(t + aa + da)); y = rb * (math.sin(t + aa + da) - t * math.cos(t + aa + da))
+            p = [o[0] + (-x if right else x), o[1] + y, r.uniform(-1, 1)]; pk = "near-curve"
+        else:
+            t = r.uniform(tmin + 0.05, tmax - 0.05)
+            x = rb * (math.cos(t + aa) + t * math.sin(t + aa)); y = rb * (math.sin(t + aa) - t * math.cos(t + aa))
+            p = [o[0] + (-x if right else x), o[1] + y, r.uniform(-1, 1)]; pk = "on-curve"; on = 1
         d = unit(r)
         if r.random() < 0.3:
             d = norm3([d[0], d[1], 0.0]) if abs(d[0]) + abs(d[1]) > 1e-3 else [1.0, 0.0, 0.0]
-        cases.append((data, p, d))
-        lines.append("eval inv 6 %s %s %s 0 %s" % (hx(data), hx(p), hx(d), float(1e-4).hex()))
+        if r.random() < 0.05:
+            d = [0.0, 0.0, r.choice([1.0, -1.0])]
+        cases.append((data, p, d, on, pk))
+        lines.append("eval inv 6 %s %s %s %d %s" % (hx(data), hx(p), hx(d), on, float(1e-4).hex()))
+        for k in range(NP):
+            pp = [x + r.choice([-1, 1]) * 2.0 ** -36 * R for x in p]
+            lines.append("eval inv 6 %s %s %s %d %s" % (hx(data), hx(pp), hx(d), on, float(1e-4).hex()))
     rc, out = ctx.run_harness(exe, input="\n".join(lines) + "\n")
     outl = out.strip().splitlines()
     if rc != 0 or len(outl) != len(lines):
         raise vlib.BuildError("surface harness failed on involutes rc=%d" % rc, out[-2000:])
+    PREI = PRE.replace("C12.Run.", "C12.Involute C12.Run.")
+    exprs = ["run_inv (Inv %s) %s %s %s" % (" ".join(hexf(x) for x in data), v3(p), v3(d), "true" if on else "false")
+             for data, p, d, on, pk in cases]
+    mvals = ctx.coq_eval("inv", PREI, exprs, chunk=max(10, len(exprs) // 12 + 1), timeout=1200)
     found = False
     nbad = 0
-    for (data, p, d), line in zip(cases, outl):
-        res = parse_eval(line)
-        ctx.count("type:inv")
-        if res is None:
+    for ci, ((data, p, d, on, pk), mv) in enumerate(zip(cases, mvals)):
+        res = parse_eval(outl[ci * (NP + 1)])
+        pert = [parse_eval(outl[ci * (NP + 1) + 1 + k]) for k in range(NP)]
+        ctx.count("type:inv"); ctx.count("inv-kind:" + pk)
+        if res is None or any(x is None for x in pert):
             ctx.count("harness-error:inv")
             continue
         sense, ints, nrm, flips = res
         fin = [t for t in ints if t < 1e300]
-        ctx.case(("inv", data, p, d), nontrivial=bool(fin))
+        ctx.case(("inv", data, p, d, on), nontrivial=bool(fin))
         bad = None
         if any(not t > 0 for t in fin):
             bad = "non-positive involute intersection distance %r" % fin
         if abs(math.sqrt(sum(x * x for x in nrm)) - 1) > 1e-9:
             bad = "|calc_normal| != 1 for an involute: %r" % nrm
         rb, a, tmin, tmax = abs(data[2]), data[3], data[4], data[5]
+        hitpar = []
         for t in fin:
             xy = [p[0] + t * d[0] - data[0], p[1] + t * d[1] - data[1]]
             if data[2] < 0:
                 xy[0] = -xy[0]
             tp = math.sqrt(max(0.0, (xy[0] ** 2 + xy[1] ** 2) / rb ** 2 - 1))
+            hitpar.append(tp)
             tol = 1e-5 * rb * (1 + tp) + 1e-7 * t
             cx = rb * (math.cos(tp + a) + tp * math.sin(tp + a)); cy = rb * (math.sin(tp + a) - tp * math.cos(tp + a))
             if not (tmin - 1e-5 <= tp <= tmax + 1e-5):
                 bad = "involute intersection at t=%r outside the bounded arc: parameter %r not in [%r, %r]" % (t, tp, tmin, tmax)
             elif math.hypot(cx - xy[0], cy - xy[1]) > tol:
                 bad = "involute intersection at t=%r is off the curve by %.3g (tol %.3g)" % (t, math.hypot(cx - xy[0], cy - xy[1]), tol)
+        replay = {"surface": "inv", "data": data, "pos": p, "dir": d, "on_surface": on, "kind": pk,
+                  "impl": {"sense": sense, "intersections": ints, "normal": nrm}, "model": mv}
         if bad:
-            ctx.violation("oracle", bad, {"surface": "inv", "data": data, "pos": p, "dir": d, "intersections": ints, "normal": nrm})
+            ctx.violation("oracle", bad, replay)
             found = True
+            nbad += 1
+            if nbad > 3:
+                break
+            continue
+        # ---- correspondence with the model
+        msense, mds, mnrm, mconv, mfin = mv
+        what = None
+        if not mfin:
+            what = "model solver loop ran out of fuel"
+        sense_knife = any(x[0] != sense for x in pert) or inv_sense_margin(data, p) < 1e-7
+        if msense != sense and not sense_knife:
+            what = "sense (impl %d, model %d)" % (sense, msense)
+        elif msense != sense:
+            ctx.count("inv-sense-knife-accepted")
+        if any(abs(x - y) > 1e-9 for x, y in zip(mnrm, nrm)):
+            what = "normal"
+        # distances: both solve |f| <= 1e-8 r_b with differently rounded sin/cos, so roots agree to
+        # ~1e-8 r_b / |f'|; unmatched roots are accepted only at the knife edges (arc ends, dist ~ tol, tangency)
+        scale = rb * (1 + tmax) + max(abs(x) for x in p)
+        horiz = math.hypot(d[0], d[1])
+        count_knife = any(len([t for t in x[1] if t < 1e300]) != len(fin) for x in pert)
+        def matched(t, others):
+            return any(abs(t - o) <= 1e-5 * scale / max(horiz, 1e-3) for o in others)
+        def edge(t):
+            xy = [p[0] + t * d[0] - data[0], p[1] + t * d[1] - data[1]]
+            tp = math.sqrt(max(0.0, (xy[0] ** 2 + xy[1] ** 2) / rb ** 2 - 1))
+            if abs(tp - tmin) < 1e-4 or abs(tp - tmax) < 1e-4 or t * horiz < 2e-6 * rb * (100 if on else 1) + 1e-9 or tp < 1e-3:
+                return True
+            # tangency: ray direction (anti)parallel to the involute tangent (cos(tp+a), sin(tp+a)) in the mirrored frame
+            u, v = (-d[0] if data[2] < 0 else d[0]) / horiz, d[1] / horiz
+            return abs(v * math.cos(tp + a) - u * math.sin(tp + a)) < 1e-3
+        mfinite = list(mds[:3])
+        unm = [t for t in mfinite if not matched(t, fin)] + [t for t in fin if not matched(t, mfinite)]
+        if unm and what is None:
+            if count_knife or (horiz > 0 and all(edge(t) for t in unm)) or not mconv:
+                ctx.count("inv-root-knife-accepted")
+            else:
+                what = "intersection distances (impl %r, model %r)" % (fin, mds)
+        if what:
+            ctx.violation("correspondence", "involute: model and implementation differ in %s (%s)" % (what, pk), replay, no_input=True)
             nbad += 1
             if nbad > 3:
                 break
@@ -1090,6 +1293,34 @@ def scaled_quadric(r, base, L, k, as_gq):
     if as_gq:
         return "gq", [float(x) * k for x in abc] + [float(x) * k for x in cr] + [float(x) * k for x in g] + [float(j) * k]
     return "sq", [float(x) * k for x in abc] + [float(x) * k for x in g] + [float(j) * k]
+
+
+def structured_quadrics(r, reps):
+    """SimpleQuadric / GeneralQuadric (no cross terms) inputs for the simplifier from a structured family: every
+    combination of {zero, equal, unequal, negative} second-order terms and {zero, nonzero} first-order terms per axis,
+    with zero / positive / negative constant, scaled and negated: paraboloids (circular, elliptic, hyperbolic),
+    parabolic cylinders, pairs of planes, spheroids with two equal radii, elliptic cones, near-miss cylinders /
+    spheres / cones - i.e. every early exit of Quadric{Plane,Sphere,Cyl,Cone}Converter is approached from both sides."""
+    out = []
+    for rep in range(reps):
+        c = r.choice([4.0, 0.25, 2.5]); t = r.choice([1.0, 0.5625, 2.0]); e = r.choice([1e-3, 1e-6])
+        S = [(1, 1, 0), (1, 0, 1), (0, 1, 1), (1, 0, 0), (0, 1, 0), (0, 0, 1), (1, 1, 1), (1, 1, c), (c, 1, 1), (1, c, 1),
+             (1, 1, -t), (1, -t, 1), (-t, 1, 1), (1, -1, 0), (0, 1, -1), (-1, 0, 1), (1, c, -t), (c, c, 1), (1, c, 0), (0, 0, 0),
+             (1, 1 + e, 0), (1, 1, 1 + e), (1, 1 + e, -t), (1, 1, e)]
+        for sec in S:
+            for fmask in range(8):
+                first = [(r.choice([-1, 1]) * r.choice([1.0, 3.0, 0.5, r.uniform(0.1, 4)]) if (fmask >> k) & 1 else 0.0)
+                         for k in range(3)]
+                if not any(sec) and not any(first):
+                    continue
+                g = r.choice([0.0, -4.0, 4.0, -r.uniform(0.1, 9), r.uniform(0.1, 9)])
+                k = r.choice([1.0, -1.0, r.choice([1, -1]) * logu(r, -2, 2)])
+                d = [float(x) * k for x in sec] + [x * k for x in first] + [g * k]
+                if r.random() < 0.35:
+                    out.append(("gq", d[:3] + [0.0, 0.0, 0.0] + d[3:]))
+                else:
+                    out.append(("sq", d))
+    return out
 
 
 def check_simplifier_chain(ctx, exe, n):
@@ -1127,6 +1358,12 @@ def check_simplifier_chain(ctx, exe, n):
                     if r.random() < 0.6:
                         d[jx] = r.choice([0.0, 1e-12, -1e-12, -0.0])
         cases.append((ty, d))
+    # corpus: circular paraboloids x^2 + y^2 - z - 4 = 0 (and permutations), parabolic cylinder, spheroid with two equal radii
+    cases.append(("sq", [1.0, 1.0, 0.0, 0.0, 0.0, -1.0, -4.0]))
+    cases.append(("sq", [0.0, 2.0, 2.0, 3.0, 0.0, 0.0, -8.0]))
+    cases.append(("sq", [1.0, 0.0, 0.0, 0.0, 1.0, 0.0, 0.0]))
+    cases.append(("sq", [1.0, 1.0, 4.0, 0.0, 0.0, 0.0, -4.0]))
+    cases += structured_quadrics(r, 1 if n <= 1000 else 8)
     lines, allpts = [], []
     for ty, d in cases:
         L = 1.0
